@@ -208,9 +208,9 @@ class C03(Prop):
                     for j in range(b - 80, min(len(s2), b + 30)):
                         s2[j] = 0
             p = {"gain": rng.choice([500, 1000, 2000]), "dc": rng.randrange(-100, 100), "sigma": rng.choice([0, 0, 50]), "delay": rng.randrange(1000),
-                 "ppm": rng.randrange(-50, 50), "lead": 0, "leadn": 0, "level": 0, "seed": rng.randrange(10 ** 6), "app": 2}
+                 "ppm": rng.randrange(-50, 50), "lead": 2, "leadn": 6000 + rng.randrange(0, 200), "level": 5000, "seed": rng.randrange(10 ** 6), "app": 2}
             if trial < 3:
-                p.update(gain=1000, dc=0, sigma=0, delay=0, ppm=0)
+                p.update(gain=1000, dc=0, sigma=0, delay=0, ppm=0, lead=0, leadn=0)
             ln, rep, rc, err = demodlib.run_rx(ctx, demod, p, s2)
             ctx.count(("mode-trace", kind, variant, tuple(sorted(p.items()))), nontrivial=True)
             if rc != 0 or not rep.startswith("demod_trace"):
